@@ -15,13 +15,14 @@ pub struct S1Opts {
     pub frames_hi: u64,
     pub long_run_pct: u64,
     pub mp_choices: &'static [usize],
+    pub force_spectators: bool,
     /// favour held inputs and bursts: long prediction streaks
     pub bias_held: bool,
 }
 
 impl Default for S1Opts {
     fn default() -> Self {
-        S1Opts { min_peers: 2, max_peers: 4, allow_spectators: true, allow_lockstep: false, faults: true, desync: false, frames_lo: 50, frames_hi: 900, long_run_pct: 10, mp_choices: &[1, 1, 2, 2, 3, 4, 6, 8, 8, 8, 10, 12], bias_held: false }
+        S1Opts { min_peers: 2, max_peers: 4, allow_spectators: true, allow_lockstep: false, faults: true, desync: false, frames_lo: 50, frames_hi: 900, long_run_pct: 10, mp_choices: &[1, 1, 2, 2, 3, 4, 6, 8, 8, 8, 10, 12], force_spectators: false, bias_held: false }
     }
 }
 
@@ -94,7 +95,9 @@ pub fn s1(property: &str, scenario: &str, seed: u64, o: &S1Opts) -> Plan {
     for p in 0..n_peers {
         nodes.push(NodeSpec { kind: NodeKind::Peer { locals: locals[p].clone() }, tick: TickSpec::default(), wall_offset_ms: 0, drain: true });
     }
-    let n_spec = if o.allow_spectators {
+    let n_spec = if o.force_spectators {
+        c.range(&[16], 1, 2)
+    } else if o.allow_spectators {
         match c.range(&[16], 0, 9) {
             0..=5 => 0,
             6..=8 => 1,
@@ -378,6 +381,7 @@ pub fn generate(property: &str, tier: &str, seed: u64, index: u64) -> Plan {
             _ => starve(s1(property, "s1-allwindows", seed, &S1Opts { mp_choices: ALL_WINDOWS, max_peers: 3, ..Default::default() }), seed),
         },
         "C05" => c05(property, tier, seed, index),
+        "C06" => c06(property, seed),
         "C07" => c07(property, seed),
         "C12" => c12(property, seed, index),
         "C13" => match index % 8 {
@@ -955,4 +959,62 @@ pub fn c12(property: &str, seed: u64, index: u64) -> Plan {
             p
         }
     }
+}
+
+
+// ------------------------------------------------------------------ C06
+
+/// Host topologies of 1-3 peers with 1-2 spectators; spectators tick at 0.25x-4x the host's
+/// rate, pause for up to 3 s, use every catch-up setting; loss/reordering on the host->spectator
+/// link; in some two-peer runs the other player dies.
+pub fn c06(property: &str, seed: u64) -> Plan {
+    let c = Ch::new(seed, "c06");
+    let single_host = c.chance(&[1], 200_000);
+    let mut p = s1(
+        property,
+        "c06",
+        seed,
+        &S1Opts { faults: false, allow_lockstep: true, force_spectators: true, min_peers: if single_host { 1 } else { 2 }, max_peers: if single_host { 1 } else { 3 }, frames_lo: 200, frames_hi: 900, long_run_pct: 5, ..Default::default() },
+    );
+    let per = 1_000_000 / p.cfg.fps as u64;
+    let horizon = p.horizon_us;
+    let n = p.nodes.len();
+    for i in 0..n {
+        let NodeKind::Spectator { host, .. } = p.nodes[i].kind.clone() else { continue };
+        let k = i as u64;
+        let host_period = p.nodes[host].tick.period_us;
+        let ratio = *c.pick(&[2, k], &[250u64, 500, 1000, 1000, 1000, 2000, 4000]);
+        p.nodes[i].tick.period_us = (host_period * ratio / 1000).max(1000);
+        p.nodes[i].tick.jitter_us = *c.pick(&[3, k], &[0u64, 0, per / 4, per]);
+        p.nodes[i].tick.pauses.clear();
+        for j in 0..c.range(&[4, k], 0, 2) {
+            let at = c.range(&[5, k, j], ms(300), horizon.max(ms(400)));
+            p.nodes[i].tick.pauses.push((at, at + ms(c.range(&[6, k, j], 100, 3000))));
+        }
+        p.nodes[i].kind = NodeKind::Spectator { host, max_frames_behind: c.range(&[7, k], 1, 59) as usize, catchup_speed: *c.pick(&[8, k], &[1usize, 1, 2, 3, 5, 10, 30, 70]) };
+        for l in p.links.iter_mut() {
+            if l.from == host && l.to == i {
+                l.loss_ppm = *c.pick(&[9, k], &[0u32, 0, 20_000, 100_000, 200_000]);
+                l.dup_ppm = *c.pick(&[10, k], &[0u32, 0, 50_000]);
+                l.jitter_us = l.base_us * c.range(&[11, k], 0, 150) / 100;
+            }
+            if l.from == i && l.to == host {
+                l.loss_ppm = *c.pick(&[12, k], &[0u32, 0, 50_000, 100_000]);
+            }
+        }
+    }
+    // a host-side player disconnect: in two-peer runs the peer that hosts no spectator may die
+    let peers = p.peers();
+    if peers.len() == 2 && c.chance(&[13], 400_000) {
+        let hosts: Vec<usize> = p.nodes.iter().filter_map(|n| if let NodeKind::Spectator { host, .. } = n.kind { Some(host) } else { None }).collect();
+        if let Some(&v) = peers.iter().find(|x| !hosts.contains(x)) {
+            p.nodes[v].tick.stop_us = Some(c.range(&[14], ms(500), horizon.max(ms(600))));
+            p.cfg.timeout_ms = 2000;
+            p.cfg.notify_ms = 500;
+            p.horizon_us += ms(2500);
+            p.scenario = "c06-player-dies".into();
+        }
+    }
+    p.oracle.spectator_stream = true;
+    p
 }
